@@ -12,21 +12,26 @@
 //         the Lean side parses the dump and ignores <desc>)
 //   dump                                          -> S <sizes...> | B <hex>x5 | A <hex or ->...
 //   size                                          -> <mj_sizeModel>
-//   save                                          -> len=<n> fnv=<fnv1a64 of the image>
+//   save                                          -> len=<bytes actually written by mj_saveModel> fnv=<fnv1a64 of them>
 //   load <edit>*                                  -> <result> nbuf=<n|-> [; oracle fields]
 //        edits (applied in order to a copy of the saved image):
 //          t<n> truncate to n bytes      w<off>:<hex> overwrite     i<off>:<hex> insert
 //          d<off>:<n> delete n bytes     z<off>:<n> insert n zero bytes
 //        result: ok len=<n> fnv=<h>  (image re-saved from the loaded model)
-//              | reject <warning text> | fatal <mju_error text>
-//        every load runs in a forked child; a child killed by a signal / sanitizer gives
-//        "crash sig=<n> stage=<load|check|makedata|forward|resave> [san=<first report line>]"
+//              | reject <warnings of the call joined by " | "> | fatal <mju_error text>
+//        nbuf = size of the second allocation of the call (the model buffer requested by mj_makeModel)
+//        oracle fields (after "oracle 1", for an accepted model): oob=<first violation of the rules or ->
+//          makedata=ok|null|fatal:<msg>  forward=ok|fatal:<msg>   [leak=1] [canary=overwritten]
+//        every load runs in a forked worker process (see "worker processes" below); a worker killed by a
+//        signal / sanitizer gives "crash sig=<n>|exit=<n> stage=<load|check|makedata|forward|teardown>
+//        [san=<first sanitizer line> at=<frames>]"
 //   sweep <from> <to> <step>                      -> n=<k> reject=<k> other=<first non-reject len:result or ->
 //        (truncation at lengths from, from+step, ... < to; to is clipped to the image length)
 //   rule arr=<a> n=<size>[*k] stride=<s> off=<o> target=<size> min=<v> [num=<arr>] [when=<arr>:<v,v..>]...
 //                                                 -> ok      (independent bounds checker, oracle only)
-//   oracle <0|1>                                  -> ok      (1: after an accepted load run checker + makeData + forward)
+//   oracle <0|1>                                  -> ok      (1: after an accepted load run checker + makeData + forward + step)
 //   imghex                                        -> <hex of the saved image>  (debugging / replays)
+// The harness never judges: it prints observations; checks/c31.py compares and classifies them.
 #define _GNU_SOURCE
 #include <errno.h>
 #include <limits.h>
